@@ -77,10 +77,10 @@ impl Set {
 		let levels = c16::bbox_of(tiles.keys());
 		Set { tiles, levels, order: 0 }
 	}
-	fn source(&self, fmt: Fmt, comp: Comp) -> OrderSource {
+	pub(crate) fn source(&self, fmt: Fmt, comp: Comp) -> OrderSource {
 		OrderSource { inner: self.mem_source(fmt, comp), order: self.order }
 	}
-	fn mem_source(&self, fmt: Fmt, comp: Comp) -> MemSource {
+	pub(crate) fn mem_source(&self, fmt: Fmt, comp: Comp) -> MemSource {
 		let v: Vec<(TileCoord3, Blob)> = self.tiles.iter().map(|((z, x, y), p)| (TileCoord3::new(*x, *y, *z).unwrap(), Blob::from(p.clone()))).collect();
 		let mut pyr = TileBBoxPyramid::new_empty();
 		for (z, b) in &self.levels {
@@ -1117,6 +1117,12 @@ pub fn run(args: &Args) {
 				emit_case(&mut ctx, &mut shrunk, t, f, c, &set, "leaves");
 			}
 		}
+	}
+	// write faults below the writers (class 2) and source metadata colliding with what the writers derive (class 4)
+	if !search_run {
+		let mut r3 = rng.fork();
+		crate::c01_extra::fault_cases(&mut ctx, &mut r3, args);
+		crate::c01_extra::tilejson_collision_cases(&mut ctx, &mut r3, args);
 	}
 	// sparse tile sets at high zoom levels (child processes with an address-space limit)
 	if !search_run {
